@@ -36,6 +36,7 @@ RULE = ("0D, 1D (shelf, VISF) and 2D programs from a calibrated table (<= 10 000
 EXPLANATION = ("Lean theorems about the controlled-nucleation branch of the cooling loop + differential check against "
                "Snowing.run(); the trigger condition re-evaluated on the real recorded fields")
 PARALLEL = True
+LEVEL_TEXT = ("Lean 4 theorems about executable models of _run_0D and _run_1D (exact real arithmetic), tied to /repo by a differential check. Proved in full: 0D and 1D (repaired test T_k.min() <= cnTemp + 273.15): controlled nucleation is triggered at the first step at which the product / its coldest point has reached cnTemp and not before; the reported nucleation temperature lies within one step's cooling below cnTemp (0D: exact step formula; 1D: discrete minimum principle under 0 <= Fo <= 1/2, bound = the ghost-point increments). Refuted for the unrepaired code: the test T_k.any() <= cnTemp + 273.15 is true for every field and every cnTemp >= -272.15, so nucleation fires at step 0 (general theorem + concrete witness); replayed on the real code (F4, fixes/F4.diff). PARTIAL with respect to the quantifier: 2D has no theorem here (same defect, same one-line repair); it is covered by the predicates on real 2D runs.")
 
 
 def run_impl(case):
